@@ -1,7 +1,7 @@
 (** Correspondence checkers for C19 (post-processing). Input = inputs ++ impl observable. *)
 From Coq Require Import ZArith List Bool.
 From Comet Require Import Base.FBits Base.Parse Base.Sorting Check.Common.
-From Comet Require Import Model.Limiter Model.Aggregation Model.Fusion.
+From Comet Require Import Model.Limiter Model.Aggregation Model.Fusion Model.XSort.
 Import ListNotations.
 Open Scope Z_scope.
 
@@ -51,9 +51,13 @@ Definition rank_range (ascending : bool) (m : smap) (id : Z) : option (Z * Z) :=
   match lookup id m with
   | None => None
   | Some s =>
+      (* a NaN score compares false against everything: the exchange sort leaves it wherever the map
+         order put it, and the other scores are ordered among the remaining positions *)
+      let nans := filter (fun p => F64.is_nan (snd p)) m in
+      if F64.is_nan s then Some (0, Z.of_nat (length m) - 1) else
       let better := filter (fun p => if ascending then F64.ltb (snd p) s else F64.gtb (snd p) s) m in
       let equal := filter (fun p => F64.eqb (snd p) s) m in
-      Some (Z.of_nat (length better), Z.of_nat (length better + length equal) - 1)
+      Some (Z.of_nat (length better), Z.of_nat (length better + length equal + length nans) - 1)
   end.
 Definition zrange (lo hi : Z) : list Z := map (fun i => lo + Z.of_nat i) (seq 0 (Z.to_nat (hi - lo + 1))).
 Definition rrf_candidates (k : Z) (v t : smap) (id : Z) : list Z :=
@@ -73,7 +77,8 @@ Definition rrf_specb (k : Z) (v t outs : smap) : bool :=
   nodupz ids && subsetz (map fst v ++ map fst t) ids && subsetz ids (map fst v ++ map fst t) &&
   forallb (fun p => existsb (fun c => F64.canon c =? snd p) (rrf_candidates k v t (fst p))) outs.
 
-Definition has_ties (m : smap) : bool := negb (nodupz (map (fun p => F64.key (snd p)) m)).
+Definition has_ties (m : smap) : bool := negb (nodupz (map (fun p => F64.key (snd p)) m))
+  || existsb (fun p => F64.is_nan (snd p)) m.
 
 (** 1906: fusion. kind, vw, tw, K, vec map, text map, out map, mutated flag *)
 Definition chk_fusion : P (list Z) :=
@@ -110,7 +115,10 @@ Definition chk_ranks : P (list Z) :=
       (length ranks =? length scores)%nat && nodupz (map fst ranks) && seteqz (map fst ranks) (map fst scores) &&
       nodupz (map snd ranks) && forallb (fun p => (0 <=? snd p) && (snd p <? n)) ranks &&
       forallb (fun a => forallb (fun b => negb (better (snd a) (snd b)) || (rank_of (fst a) <? rank_of (fst b))) scores) scores in
-  ret (verdict ok ok [n]).
+  (* without ties or NaN the result does not depend on the iteration order: it must then be exactly what
+     the exchange sort of Model/XSort.v (proved best-first for every order in Proofs/XSortP.v) produces *)
+  let exact := ok && (has_ties scores || same_pairs (xranks asc scores) ranks) in
+  ret (verdict exact ok [n]).
 
 Definition run_P (p : P (list Z)) (s : list Z) : list Z :=
   match run_parser p s with Some v => v | None => v_parse end.
